@@ -52,7 +52,7 @@ class Trace:
                 amt, after = sx.q(o[0]), tabs(o[1])
             elif t in (3, 4, 5):
                 ret, amt, after = o[0], sx.q(o[1]), tabs(o[2])
-            elif t in (7, 8, 10, 11):
+            elif t in (7, 8, 10, 11, 16):
                 after = tabs(o[0])
             elif t == 9:
                 ret, after = bool(o[0]), cur
@@ -1044,11 +1044,11 @@ def gen_c16(ctx, n, fol=True):
         pre = []
         for _k in range(rng.choice([0, 1, 2])):
             i = rng.randrange(len(kb))
-            pre.append(rng.choice([[12, i, gen_fol.rnd_gnd(rng, kb[i][3], 4)], [9]]))
+            pre.append(rng.choice([[12, i, gen_fol.rnd_gnd(rng, kb[i][3], 4)], [9], [16]]))
         mid = gen_fol.gen_fops(rng, kb, roots, rng.choice([0, 2, 4]), 3, data_ops=0.0) if rng.random() < 0.5 else []
         ops = pre + [[5, -1, 30]]
         k1 = len(ops) - 1
-        ops += [[9]] + mid + [[7], [5, -1, 30]]
+        ops += [[9]] + mid + ([[16]] if rng.random() < 0.4 else []) + [[7], [5, -1, 30]]
         k2 = len(ops) - 1
         ops += [[7], [5, -1, 30]]      # a third cycle: whatever run 2 inferred must not have become data
         scs.append([40, kb, roots, worlds, data, ops, k1, k2])
